@@ -45,6 +45,7 @@ type Contract struct {
 	File       string
 	Shared     string // name of the shared contract this was instantiated from
 	GhostSets  []*GhostSet // ghost variables updated when the function returns
+	RetProto   string // the protocol the returned function value must obey (closures implementing a factory protocol)
 	Implements string // closures: the protocol this function literal implements
 	ImplInst   string // type instance for $T in that protocol
 }
@@ -62,6 +63,13 @@ type GhostSet struct {
 	Var  string
 	Text string
 	Expr *CExpr
+}
+
+// MethodVal: a method value x.M of a trusted external method obeys a protocol; Bind relates self (the function value) and recv.
+type MethodVal struct {
+	Proto string
+	Bind  *CExpr
+	Text  string
 }
 
 // TagDecl demands a struct tag on a field (decided syntactically): tag Type.Field key "value" [props]
@@ -102,6 +110,7 @@ type ContractSet struct {
 	Preds      map[string]*Pred
 	Logics     map[string]*LogicFn
 	FieldProto map[string]string // "Type.field" -> protocol obeyed by the function value stored there
+	MethodVals map[string]*MethodVal
 	Tags       []TagDecl
 	Axioms     []*Clause
 	Applies    map[string][]string // shared contract name -> function keys
@@ -109,7 +118,7 @@ type ContractSet struct {
 }
 
 func NewContractSet() *ContractSet {
-	return &ContractSet{ByKey: map[string]*Contract{}, Protocols: map[string]*Protocol{}, Preds: map[string]*Pred{}, Logics: map[string]*LogicFn{}, FieldProto: map[string]string{}, Applies: map[string][]string{}}
+	return &ContractSet{ByKey: map[string]*Contract{}, Protocols: map[string]*Protocol{}, Preds: map[string]*Pred{}, Logics: map[string]*LogicFn{}, FieldProto: map[string]string{}, MethodVals: map[string]*MethodVal{}, Applies: map[string][]string{}}
 }
 
 var clauseKW = map[string]bool{
@@ -117,7 +126,7 @@ var clauseKW = map[string]bool{
 	"requires": true, "ensures": true, "invariant": true, "modifies": true, "decreases": true,
 	"helper": true, "inline": true, "pure": true, "nowf": true, "use": true, "protocol": true,
 	"yields": true, "param": true, "contract": true, "applies": true, "opaque": true, "entry": true, "spec": true,
-	"terminal": true, "allocates": true, "pred": true, "trigger": true, "assumed": true, "partial": true, "stream": true, "resumes": true, "refines": true, "field": true, "implements": true, "tag": true, "ghostset": true, "logic": true, "axiom": true, "nilrecv": true, "verify": true,
+	"terminal": true, "allocates": true, "pred": true, "trigger": true, "assumed": true, "partial": true, "stream": true, "resumes": true, "refines": true, "field": true, "implements": true, "tag": true, "ghostset": true, "methodvalue": true, "logic": true, "axiom": true, "nilrecv": true, "verify": true,
 }
 
 var labelRe = regexp.MustCompile(`^([A-Za-z_][\w']*)\s*(\[[A-Za-z0-9, ]*\])?\s*:`)
@@ -251,6 +260,24 @@ func (cs *ContractSet) ParseContractLines(file string, lines []string, poss []st
 			} else {
 				cs.Errors = append(cs.Errors, fmt.Sprintf("%s: bad field declaration %q", it.pos, it.rest))
 			}
+			cur = nil
+		case "methodvalue":
+			// methodvalue pkg.Type.Method follows proto [binds expr]
+			m := regexp.MustCompile(`^(\S+)\s+follows\s+(\w+)(?:\s+binds\s+(.*))?$`).FindStringSubmatch(it.rest)
+			if m == nil {
+				cs.Errors = append(cs.Errors, fmt.Sprintf("%s: bad methodvalue declaration %q", it.pos, it.rest))
+				continue
+			}
+			mv := &MethodVal{Proto: m[2], Text: m[3]}
+			if m[3] != "" {
+				e, err := ParseCExpr(m[3])
+				if err != nil {
+					cs.Errors = append(cs.Errors, fmt.Sprintf("%s: %v", it.pos, err))
+					continue
+				}
+				mv.Bind = e
+			}
+			cs.MethodVals[m[1]] = mv
 			cur = nil
 		case "ghostset":
 			if cur != nil {
